@@ -723,6 +723,17 @@ def build_odg(seed: int, feature: str | None = None, twin: bool = False):
             n_img += 1
             fx, _ = _frame_image(rng, files, exp, n_img, None)
             shapes.append(fx)
+    rep_rng = random.Random(f"odg-repeats:{seed}")
+    if feature is None and rep_rng.random() < 0.5:
+        # the same label on several shapes (two flow-chart branches both marked "approved"): every one of them is text of the drawing
+        label = rep_rng.choice(["approved", "open item", "yes"])
+        k = rep_rng.randint(2, 3)
+        for i in range(k):
+            tok = exp.text(tk.new("b"), 0)
+            shapes.append(f'<draw:custom-shape svg:x="{8 + i}cm" svg:y="{3 + 2 * i}cm" svg:width="5cm" svg:height="1cm"><text:p>{label}</text:p><text:p>{tok}</text:p></draw:custom-shape>'
+                          if i % 2 else f'<draw:frame svg:x="{8 + i}cm" svg:y="{3 + 2 * i}cm" svg:width="5cm" svg:height="1cm"><draw:text-box><text:p>{tok}</text:p><text:p>{label}</text:p></draw:text-box></draw:frame>')
+        exp.repeats[label] = k
+        exp.literals += [label]
     if feature == "shared-image":
         n_img += 1
         fx, im = _frame_image(rng, files, exp, n_img, None)
